@@ -73,13 +73,16 @@ func (c *CriteriaMixing) Apply(
 	}
 	parsedProps := parseProps(props)
 	generator := c.generatorSource(parsedProps.RandomSeed)
-	c2m := selectCriteriaToMix(original, generator)
-	allAlternatives := original.AllAlternatives()
+	// work on the current (already biased) data, not on the original: earlier biases may have
+	// removed or added criteria and changed values, and those changes must stay in force
+	c2m := selectCriteriaToMix(current, generator)
+	allAlternatives := current.AllAlternatives()
 	referenceCriterionProvider := c.referenceCriteriaManager.ForParams(props)
-	referenceCriterion := referenceCriterion(original, listener, referenceCriterionProvider)
+	referenceCriterion := referenceCriterion(current, listener, referenceCriterionProvider)
 	targetValRange := model.ValuesRangeWithGroundZero(&allAlternatives, referenceCriterion)
 	mixResult := c2m.mix(&allAlternatives, targetValRange, parsedProps)
 	newCriterion := c2m.criterion(targetValRange)
+	newCriterion.Id = current.Criteria.NotUsedName(newCriterion.Id)
 	criterionParams := (*listener).OnCriterionAdded(&newCriterion, referenceCriterion, current.MethodParameters, generator)
 	newMethodParams := (*listener).Merge(current.MethodParameters, criterionParams)
 	newAlternatives := updateAlternatives(allAlternatives, newCriterion, mixResult)
